@@ -475,8 +475,14 @@ def class_shapes(ctx, prefix, classes):
             inherited = set()
             for b in c.mro()[1:]:
                 inherited |= set(b.methods)
-            unexpected = set(m for m in got - OWN_METHODS[cn] if m in dispatch or m in inherited)
-            missing = OWN_METHODS[cn] - got
+            known_inherited = set()
+            for b in c.mro()[1:]:
+                known_inherited |= (set(b.methods) & OWN_METHODS.get(b.name, set(b.methods) if b.name not in OWN_METHODS else set()))
+            # shadowing a dispatch name, or a method of a base that the tables know, is what matters; a new private hook
+            # introduced in a base and overridden here is seen through by the tables (they run in this class's context)
+            unexpected = set(m for m in got - OWN_METHODS[cn] if m in dispatch or m in known_inherited)
+            # a method this class used to define and now inherits is still covered (its table runs on what is inherited)
+            missing = set(m for m in OWN_METHODS[cn] - got if c.lookup(m) is None)
             ok = not unexpected and not missing
             ctx.ob(rule, ok)
             if unexpected:
